@@ -41,7 +41,6 @@ type world struct {
 func (w *world) violate(v lib.Violation) {
 	w.rmu.Lock()
 	defer w.rmu.Unlock()
-	v.Case = -1
 	w.res.Violate(v)
 }
 func (w *world) count(k string) {
@@ -49,10 +48,11 @@ func (w *world) count(k string) {
 	defer w.rmu.Unlock()
 	w.res.Count(k)
 }
-func (w *world) addCase(c Case) {
+func (w *world) addCase(c Case) int {
 	w.rmu.Lock()
 	defer w.rmu.Unlock()
 	*w.cases = append(*w.cases, c)
+	return len(*w.cases) - 1
 }
 
 func expText(exp int64) []byte {
@@ -238,11 +238,11 @@ func (w *world) await(prefix string, script []Ev, live []*liveClient, since time
 		}
 		time.Sleep(100 * time.Millisecond)
 	}
+	ri := w.addCase(Case{Kind: "hist", Evs: script, Obs: restObs, Source: "status-endpoint"})
 	if restClause != "" {
-		w.violate(lib.Violation{Clause: restClause, Detail: "GET /status, " + restDetail, Key: restClause + ":status-endpoint",
+		w.violate(lib.Violation{Clause: restClause, Case: ri, Detail: "GET /status, " + restDetail, Key: restClause + ":status-endpoint",
 			Replay: Case{Kind: "hist", Evs: script, Source: "status-endpoint"}})
 	}
-	w.addCase(Case{Kind: "hist", Evs: script, Obs: restObs, Source: "status-endpoint"})
 	// ---- the stats topic: some frame within two reporting intervals of the change must agree
 	var wsObs []Ident
 	wsClause, wsDetail := "stats-topic-silent", "no frame on the stats topic within two reporting intervals of the change"
@@ -271,11 +271,11 @@ func (w *world) await(prefix string, script []Ev, live []*liveClient, since time
 			break
 		}
 	}
+	wi := w.addCase(Case{Kind: "hist", Evs: script, Obs: wsObs, Source: "stats-topic"})
 	if wsClause != "" {
-		w.violate(lib.Violation{Clause: wsClause, Detail: "stats topic, " + wsDetail, Key: wsClause + ":stats-topic",
+		w.violate(lib.Violation{Clause: wsClause, Case: wi, Detail: "stats topic, " + wsDetail, Key: wsClause + ":stats-topic",
 			Replay: Case{Kind: "hist", Evs: script, Source: "stats-topic"}})
 	}
-	w.addCase(Case{Kind: "hist", Evs: script, Obs: wsObs, Source: "stats-topic"})
 	w.count("hist:checkpoints")
 }
 
@@ -517,11 +517,11 @@ func (w *world) feederCheck() {
 		script = append(script, Ev{K: "join", ID: 2, Who: readerWho})
 		expected = append(expected, *readerWho)
 	}
+	fi := w.addCase(Case{Kind: "hist", Evs: script, Obs: obs, Source: "stats-topic", Note: "feeder"})
 	if cl, d := diffIdents(expected, obs); cl != "" || f.seq < 0 {
-		w.violate(lib.Violation{Clause: "feeder-not-listed", Detail: "topic stats lists " + fmt.Sprint(len(obs)) + " connections; " + cl + " " + d, Key: "feeder-not-listed",
+		w.violate(lib.Violation{Clause: "feeder-not-listed", Case: fi, Detail: "topic stats lists " + fmt.Sprint(len(obs)) + " connections; " + cl + " " + d, Key: "feeder-not-listed",
 			Replay: Case{Kind: "hist", Evs: script, Source: "stats-topic"}})
 	}
-	w.addCase(Case{Kind: "hist", Evs: script, Obs: obs, Source: "stats-topic", Note: "feeder"})
 }
 
 func runHistories(a lib.Args, rng *lib.Rng, res *lib.Result, cases *[]Case) {
